@@ -180,3 +180,77 @@ class WriterGetAllData(Contract):
         return And(len(bs) == pos, a.self.pos == 0, *cs)
 
     ensures = [prop("layout-positions-offsets-and-content", lambda a, old, r: WriterGetAllData._post(a, r))]
+
+
+# -- subtable sharing: _doneWriting interns equal subtables ---------------------------------------------
+
+@contract
+class WriterDoneWriting(Contract):
+    """OTTableWriter._doneWriting on a root with three leaf subtables whose contents are SYMBOLIC
+    byte strings: two offsets end up pointing at the same writer object exactly when the two
+    subtables have equal content (and sharing is allowed: not under DontShare, and never across
+    the boundary of an Extension subtree unless shareExtension), no leaf's content changes, count
+    references become their data, and items are frozen into a tuple.  The outcome is a function of
+    the contents only (C16: no dependence on object identity or hashing)."""
+    module = "fontTools.ttLib.tables.otBase"
+    qualname = "OTTableWriter._doneWriting"
+    props = ("C06", "C16")
+    rebind = REBIND
+    shadow_mode = "function"
+    also = ("OTTableWriter.__hash__", "OTTableWriter.__eq__")
+    variants = ("plain", "dont-share", "extension", "extension-shared")
+    level = "PF"
+    max_paths = 20000
+
+    def args(self, S, variant):
+        m = self.mod
+        W = m.OTTableWriter
+        root = W()
+        datas = [S.bytes("leaf%d" % i, 2) for i in range(3)]
+        leaves = []
+        for d in datas:
+            w = W()
+            w.items = [d]
+            leaves.append(w)
+        mid = None
+        if variant.startswith("extension"):
+            # leaf 2 hangs under an Extension subtable; leaves 0 and 1 directly under the root
+            mid = W()
+            mid.Extension = True
+            mid.items = [m.OffsetToWriter(leaves[2], 4)]
+            root.items = [m.OffsetToWriter(leaves[0], 2), m.OffsetToWriter(leaves[1], 2), m.OffsetToWriter(mid, 2)]
+        else:
+            root.items = [m.OffsetToWriter(l, 2) for l in leaves]
+        if variant == "dont-share":
+            root.DontShare = True
+        return dict(self=root, internedTables={}, shareExtension=(variant == "extension-shared"),
+                    _datas=datas, _leaves=leaves, _mid=mid, _variant=variant)
+
+    @staticmethod
+    def _post(a, r):
+        root = a.self
+        if not isinstance(root.items, tuple):
+            return False
+        if a._mid is None:
+            subs = [it.subWriter for it in root.items]
+        else:
+            subs = [root.items[0].subWriter, root.items[1].subWriter, root.items[2].subWriter.items[0].subWriter]
+        cs = []
+        for i, (w, d) in enumerate(zip(subs, a._datas)):
+            if not (isinstance(w.items, tuple) and len(w.items) == 1):
+                return False
+            cs.append(SymBytes.of(w.items[0]) == SymBytes.of(d))        # content never changes
+        for i in range(3):
+            for j in range(i + 1, 3):
+                same_obj = subs[i] is subs[j]
+                equal = SymBytes.of(a._datas[i]) == SymBytes.of(a._datas[j])
+                allowed = a._variant != "dont-share"
+                if a._variant == "extension" and j == 2:
+                    allowed = False          # leaf 2 lives in the Extension's own sharing scope
+                if allowed:
+                    cs.append(eq(equal, True) if same_obj else Not(equal))
+                elif same_obj:
+                    return False
+        return And(*cs)
+
+    ensures = [prop("offsets-share-a-subtable-exactly-when-contents-are-equal-and-sharing-is-allowed", lambda a, old, r: WriterDoneWriting._post(a, r))]
